@@ -148,6 +148,7 @@ func C08(p *load.Prog, r *oblig.Run) {
 		addPurityObligations(p, r, "R08.a", root, res, "read-only diff operation "+load.FuncName(root))
 	}
 	c08Accounts(p, r)
+	c08DeepEqual(p, r)
 	// children are matched with Equals: a node that is not equal to its own copy cannot give an all-two-sided diff
 	c07PairSearch(p, r)
 	// R08.b
